@@ -469,7 +469,8 @@ _ADDENDA = {
               "provably below the word width. When next() does not match a schema's shape the schema verdict stays UNDECIDED, but "
               "a bulk edit (drain, retain, truncate, clear, sort, ..) of a container field of the traversal inside next() is "
               "still a violation (worklist-edited). Only next() (and private helpers inlined into it) pops the worklist of a "
-              "traversal; a method that drains it itself is reported (worklist-popped-outside-next).",
+              "traversal; a method that drains it itself is reported (worklist-popped-outside-next). A scan of out_neighbors*() "
+              "through take / skip / step_by / take_while / skip_while is reported whatever the shape (scan-restricted).",
 }
 _PROP_ADDENDA = {
     "C02": " has_walk reaches its pairwise test only for sequences of at least two vertices (walk-min-length).",
@@ -492,7 +493,10 @@ _PROP_ADDENDA = {
            "skipped vertex is the row being filled (ER-DRAW row-heads-skip-the-row).",
     "C18": " is_connected returns true only on paths that looked at the matrix (connected-without-scan).",
     "C20": " A hand-written eq / cmp that walks the operands' fields through zip() without comparing their lengths is not "
-           "field-wise (fieldwise).",
+           "field-wise (fieldwise); on every path on which a hand-written eq can return true the equality of every field has "
+           "been established (eq-compares-every-field).",
+    "C19": " search_by calls the target predicate with the predecessor entry as stored, not with an Option that was filtered or "
+           "mapped on the way (predicate-sees-stored-entry).",
     "C17": " A per-worker scratch container is not carried from one row to the next; a result row is written only after row u of "
            "each operand was read or is known not to exist (rows-merged); row chunks zipped with per-worker state have one "
            "item per chunk on the other side (zip-covers-chunks).",
